@@ -67,6 +67,8 @@ class SessionModel:
         self.phase = HANDSHAKE
         self.lost = False
         self.rx = 0                 # client events consumed by receive operations
+        self.gone_code = None       # the code with which the CLIENT side ended the connection, once the app was
+                                    # told (None: not ended by the client / closed by the app itself: not checked)
         self.timeouts = 0           # receive operations that were cancelled by their deadline
         self.diverged = False       # a disagreement was recorded: later operations are not judged
         self.handshake_rejected = False   # the server refused the accept event (subprotocol): state undefined
@@ -79,6 +81,15 @@ class SessionModel:
 
     def hit(self, name):
         self.branches.append(name)
+
+    def check_gone_code(self, name, res):
+        """Every WebSocketDisconnected raised after the client (or the lost connection) ended the session carries
+        that code - the first time and every later time."""
+        if self.gone_code is not None and self._is(res, 'WebSocketDisconnected'):
+            self.hit('disconnect-code-repeated')
+            if getattr(res[1], 'code', None) != self.gone_code:
+                self.bad('wrong-disconnect-code', op=name, want=self.gone_code, got=getattr(res[1], 'code', None),
+                         why='connection ended earlier with this code')
 
     def supports_headers(self):
         return self.spec >= (2, 1)
@@ -204,6 +215,7 @@ class SessionModel:
                          want=['WebSocketDisconnected'], got=_show(res))
             else:
                 want_code = 1001 if kind == 'oserror_cause' else 1000
+                self.gone_code = want_code
                 if getattr(res[1], 'code', None) != want_code:
                     self.bad('wrong-disconnect-code', op=opname, why=kind, want=want_code,
                              got=getattr(res[1], 'code', None))
@@ -233,6 +245,8 @@ class SessionModel:
                 self.bad('event-on-closed', op='close', events=[a[1] for a in attempts])
             if res[0] != 'ok':
                 self.bad('spurious-error', op='close', why='close on a closed socket does nothing', got=_show(res))
+            if self.phase != CLOSED and facts['handed']:
+                self.gone_code = facts['code'] or 1000      # it was the client who ended it
             self.phase = CLOSED       # the application closed its side: later operations see a closed socket
             return
         eff = 1000 if code is None else code
@@ -277,8 +291,11 @@ class SessionModel:
                          got=_show(res))
             elif self.phase != CLOSED and facts['handed'] and self._is(res, 'WebSocketDisconnected'):
                 want_code = facts['code'] or 1000
+                self.gone_code = want_code
                 if getattr(res[1], 'code', None) != want_code:
                     self.bad('wrong-disconnect-code', op=name, want=want_code, got=getattr(res[1], 'code', None))
+            elif self.phase == CLOSED:
+                self.check_gone_code(name, res)
             if self._is(res, 'WebSocketDisconnected'):
                 self.phase = CLOSED
             return
@@ -357,6 +374,7 @@ class SessionModel:
             self.hit(name + '.closed')
             if not self._is(res, 'WebSocketDisconnected'):
                 self.bad('wrong-error', op=name, why='closed', want=['WebSocketDisconnected'], got=_show(res))
+            self.check_gone_code(name, res)
             return
         timed = op.get('timeout') is not None
         if timed and (self.rx >= len(self.client) or self.client[self.rx]['type'] == 'pause'):
@@ -387,6 +405,7 @@ class SessionModel:
                          got=_show(res))
             else:
                 want_code = ev.get('code') or 1000
+                self.gone_code = want_code
                 if getattr(res[1], 'code', None) != want_code:
                     self.bad('wrong-disconnect-code', op=name, want=want_code, got=getattr(res[1], 'code', None))
             return
